@@ -4,7 +4,8 @@ CONSTANTS Normal = {"n1", "n2"}
           Long = {"nL"}
           Empty = {"nE"}
           Keys = {1, 2}
+          BadKeys = {7}
           EncodeOn = TRUE
           D = 3
           E = 3
-INVARIANTS Emit ResultsAgree Refines Confined
+INVARIANTS Emit ResultsAgree Refines Confined BadNeverStored
